@@ -1572,6 +1572,16 @@ def lib_iinfo(ex, args, kwargs, pc):
     return Rec("iinfo", {"max": INT32_MAX, "min": -INT32_MAX - 1})
 
 
+def lib_finfo(ex, args, kwargs, pc):
+    """jnp.finfo(dtype): eps / tiny are positive reals below 1, max is a positive real (values not fixed: the dtype of a
+    symbolic array is not tracked beyond real / int)"""
+    if not hasattr(ex, "_finfo"):
+        e, t, m = fresh_real("finfo_eps"), fresh_real("finfo_tiny"), fresh_real("finfo_max")
+        ex.extra_axioms = getattr(ex, "extra_axioms", []) + [e > 0, e < 1, t > 0, t < e, m > 1]
+        ex._finfo = Rec("finfo", {"eps": e, "tiny": t, "max": m, "min": -m, "smallest_normal": t})
+    return ex._finfo
+
+
 def lib_take(ex, args, kwargs, pc):
     a, idx = args[0], args[1]
     axis = kwargs.get("axis", 0)
@@ -1801,6 +1811,7 @@ LIB = {
     "jnp.zeros": lib_zeros,
     "jnp.ones": lib_ones,
     "jnp.iinfo": lib_iinfo,
+    "jnp.finfo": lib_finfo,
     "jnp.int32": "int32",
     "jnp.take": lib_take,
     "jnp.arange": lib_arange,
